@@ -1,0 +1,16 @@
+//go:build verif
+
+package lightcone
+
+import "github.com/simimpact/srsim/pkg/key"
+
+// VerifCatalog returns a copy of the light cone catalog (verification harness only).
+func VerifCatalog() map[key.LightCone]Config {
+	mu.Lock()
+	defer mu.Unlock()
+	out := make(map[key.LightCone]Config, len(lightConeCatalog))
+	for k, v := range lightConeCatalog {
+		out[k] = v
+	}
+	return out
+}
